@@ -236,13 +236,16 @@ Print Assumptions c16_sort_validator_decides.
 
 (* ---- installed database: write then read ---------------------------------------
    The rows of PackageToInstalled, the fmt formats of AddInstalledPackage, the
-   mode mask and the two default modes read from the source on this run are the
-   ones the theorems below are about. *)
+   mode mask, the two default modes and the function that removes the trailing
+   slashes of a directory's name (TrimRight since fix 8e9dafb; a revert to
+   TrimSuffix changes the generated definition and breaks this theorem) read from
+   the source on this run are the ones the theorems below are about. *)
 Theorem c16_installed_tables_pinned :
   installed_pkg_rows = expected_installed_rows /\
   installed_file_formats = ["%c"; "F:%s"; "M:%d:%d:%04o"; "R:%s"; "a:%d:%d:%04o"; "Z:%s"] /\
   installed_mode_mask = 511%Z /\ installed_dir_default_mode = 493%Z /\ installed_file_default_mode = 420%Z /\
-  installed_join_and_trailer = [s_nl +++ s_nl; s_nl].
+  installed_join_and_trailer = [s_nl +++ s_nl; s_nl] /\
+  installed_dir_trim_fn = "strings.TrimRight".
 Proof. exact installed_tables_pinned. Qed.
 Print Assumptions c16_installed_tables_pinned.
 
@@ -401,9 +404,9 @@ Print Assumptions c16_installed_roundtrip_fields_partial.
      the top-level one has a child (outside: C16-F5, the entry is not written);
    * non-directory names end in an ordinary component;
    * uid/gid fit Go's int; names have no LF/CR and fit, checksums fit
-     ([file_fields_fit]);
-   * directory names end in at most ONE slash ([one_slash]; outside: finding C16-F8,
-     refuted form below: TrimSuffix removes one slash per write).
+     ([file_fields_fit]).
+   (No clause about trailing slashes any more: since fix 8e9dafb the writer removes
+   all of them, [dir_trim] is idempotent; regression replay below.)
    For EVERY such package and file list, of any size: ParseInstalled returns one
    record; sortTarHeaders leaves the list it returns alone; the second
    AddInstalledPackage succeeds, and its text is the first one with the Z: lines
@@ -420,7 +423,6 @@ Theorem c16_installed_fixpoint :
   (forall h, In h files -> reachable (S (String.length (clean (h_name h)))) files (clean (h_name h)) = true) ->
   (forall h, In h files -> h_isdir h = false -> plain_base (h_name h)) ->
   Forall id_ok files -> Forall (file_fields_fit enc hexdec installed_max_token) files ->
-  Forall one_slash files ->
   write_installed enc hexdec p files = Ok t ->
   exists sorted fl t',
     sort_headers files = Ok sorted /\ files_lines enc hexdec sorted = Ok fl /\
@@ -432,17 +434,17 @@ Theorem c16_installed_fixpoint :
     Forall2 line_step (pkg_to_installed enc p) (pkg_to_installed enc (norm_inst p)) /\
     InstalledFixpointModIZ t t'.
 Proof.
-  intros enc dec hexdec codec p files t Hp Hn Fp N D R B Hid Ff One Hw.
-  exact (installed_fixpoint_fields enc dec hexdec codec p files t Hp Hn (Build_sort_envelope files N D R B) Hid One Fp Ff Hw).
+  intros enc dec hexdec codec p files t Hp Hn Fp N D R B Hid Ff Hw.
+  exact (installed_fixpoint_fields enc dec hexdec codec p files t Hp Hn (Build_sort_envelope files N D R B) Hid Fp Ff Hw).
 Qed.
 Print Assumptions c16_installed_fixpoint.
 
 Example c16_installed_fixpoint_ex :
   inst_pkg_ok ex_pkg /\ p_name ex_pkg <> "" /\ inst_fields_fit wenc installed_max_token ex_pkg /\
   sort_envelope ex_files /\ Forall id_ok ex_files /\ Forall (file_fields_fit wenc whex installed_max_token) ex_files /\
-  Forall one_slash ex_files /\ exists t, write_installed wenc whex ex_pkg ex_files = Ok t.
+  exists t, write_installed wenc whex ex_pkg ex_files = Ok t.
 Proof.
-  split; [|split; [discriminate|split; [|split; [|split; [|split; [|split]]]]]].
+  split; [|split; [discriminate|split; [|split; [|split; [|split]]]]].
   - constructor; try (vm_compute; (reflexivity || lia)); try (split; vm_compute; congruence);
       repeat constructor; try discriminate.
   - constructor; fits_tac.
@@ -456,23 +458,22 @@ Proof.
     + right. right. left. fits_tac.
     + left. reflexivity.
     + left. reflexivity.
-  - repeat constructor; intro; vm_compute; discriminate.
   - eexists. vm_compute. reflexivity.
 Qed.
 
-(* the one_slash clause is needed: a directory entry spelled "a//" is written F:a/,
-   read as "a/", and written F:a the second time (finding C16-F8) *)
-Theorem c16_installed_fixpoint_double_slash_refuted :
-  sort_envelope witness_two_slashes /\ ~ Forall one_slash witness_two_slashes /\
-  exists t p' fs' t',
+(* fixed C16-F8 (regression replay, also in the harness corpus): a directory header
+   named a// is inside the envelope and is written F:a BOTH times -- before fix
+   8e9dafb it was written F:a/ and then F:a *)
+Theorem c16_installed_double_slash_fixed :
+  sort_envelope witness_two_slashes /\ two_slashes witness_two_slashes = true /\
+  exists t t',
     write_installed wenc whex witness_inst_pkg witness_two_slashes = Ok t /\
-    parse_installed wdec t = Ok [(p', fs')] /\
-    write_installed wenc whex p' fs' = Ok t' /\
-    ~ InstalledFixpointModIZ t t' /\
-    In "viol:installed-read-write-not-fixpoint" (installed_fixpoint_tags t (Ok t')) /\
-    two_slashes witness_two_slashes = true.
-Proof. exact installed_fixpoint_double_slash_refuted. Qed.
-Print Assumptions c16_installed_fixpoint_double_slash_refuted.
+    parse_installed wdec t = Ok [(norm_inst witness_inst_pkg, [mkHdr "a" true 493 0 0 ""; mkHdr "a/x" false 420 0 0 ""])] /\
+    write_installed wenc whex (norm_inst witness_inst_pkg) [mkHdr "a" true 493 0 0 ""; mkHdr "a/x" false 420 0 0 ""] = Ok t' /\
+    In "F:a" (split_on ch_nl t) /\ In "F:a" (split_on ch_nl t') /\
+    InstalledFixpointModIZ t t'.
+Proof. exact installed_double_slash_fixed. Qed.
+Print Assumptions c16_installed_double_slash_fixed.
 
 (* the validator run on the IMPLEMENTATION's second text reports nothing but the two
    recorded findings exactly when the readable statement holds *)
